@@ -379,6 +379,14 @@ def run(chk, fb, tier):
                 l = t["args"][2]["p"]["l"]
                 is_none = any(st["k"] == "assign" and st["lhs"]["l"] == l and st["rv"]["k"] == "agg" and st["rv"].get("variant") == "None" for bl in b["blocks"] for st in bl["s"])
                 if not is_none:
+                    # one call for both cases: the new name is `test.then_some(new)` / `.then(..)` of the very same test
+                    sel = [a for a in fl.atoms(t["args"][2], through_calls=False) if a[0] == "call" and a[1].split("::")[-1] in ("then_some", "then")]
+                    if sel:
+                        ta = fl.atoms(b["blocks"][sel[0][2]]["t"]["args"][0])
+                        ok = any(a[0] == "call" and a[1].endswith("::eq") for a in ta) and any(a[0] == "call" and a[1].endswith("get_file_target") for a in ta) and any(a[0] == "call" and a[1].endswith("make_rel_name") for a in ta)
+                        chk.ob(ro, "%s:as-is#%d" % (d, n), ok, where="%s:%s" % (b["file"], t["ln"]),
+                               detail="one write for both cases; the new name is selected by %s" % ("the test `its name == the sheet's own .rels name`" if ok else "something else than that test"))
+                        n += 1
                     continue
                 cbs = _neg_guarded(cfg, fl, b, bi, lambda a: a[1].endswith("::eq"))
                 ok = False
